@@ -185,7 +185,9 @@ def write_item(e):
             enum_fields.add(cls[1])
     bits = sym.bits_of(e.e, e.env, n * 8)
     out = []
+    keys = []
     for b in bits:
+        keys.append(b[0] if isinstance(b, tuple) and len(b) == 2 and isinstance(b[0], str) else None)
         if b in (0, 1):
             out.append(b)
         elif b is None:
@@ -195,7 +197,7 @@ def write_item(e):
         else:
             key, j = b
             out.append(classify_atom(key, e.env) + (j,))
-    return {"k": "chunk", "n": n, "order": e.order, "bits": out, "line": e.line, "api": e.api, "his": his, "enum_fields": enum_fields}
+    return {"k": "chunk", "n": n, "order": e.order, "bits": out, "line": e.line, "api": e.api, "his": his, "enum_fields": enum_fields, "keys": keys, "env": e.env}
 
 
 def item_bytes(g, env):
